@@ -274,6 +274,270 @@ static int run_read_all(const char *path)
 done: return wl_nfail;
 }
 
+/* ------------------------------------------------------------------ C16 extension: API families the first 16 workloads do not reach */
+/* pre-existing file with an unlimited SDS of two records (SD interface; an old-style NDG/SDD is written beside it) */
+static int prep_rec(const char *path)
+{
+    int32 sd, sds; if (prep_h(path) == FAIL) return -1;
+    sd = SDstart(path, DFACC_RDWR); if (sd == FAIL) return -1;
+    { int32 ud[2] = {SD_UNLIMITED, 3}, st[2] = {0, 0}, ct[2] = {2, 3}; int16 v[6] = {1, 2, 3, 4, 5, 6};
+      sds = SDcreate(sd, "rec", DFNT_INT16, 2, ud); if (sds == FAIL) return -1; if (SDwritedata(sds, st, NULL, ct, v) == FAIL) return -1; SDendaccess(sds); }
+    return SDend(sd);
+}
+/* pre-existing file with two DFAN annotations and a file id, written through the DFAN interface */
+static int prep_dfan(const char *path)
+{
+    int32 fid; if (prep_h(path) == FAIL) return -1;
+    DFANclear();
+    if (DFANputlabel(path, 1000, 1, "first label") == FAIL) return -1;
+    if (DFANputdesc(path, 1000, 1, "first description", 17) == FAIL) return -1;
+    fid = Hopen(path, DFACC_RDWR, 0); if (fid == FAIL) return -1;
+    if (DFANaddfid(fid, "file id one") == FAIL) return -1;
+    return Hclose(fid);
+}
+/* low-level file without a library version element (files of old library versions or other writers): the first access of a
+   session finds no version, marks it as modified, and Hclose writes the version element */
+static int prep_nover(const char *path)
+{
+    int32 fid; if (prep_h(path) == FAIL) return -1;
+    fid = Hopen(path, DFACC_RDWR, 0); if (fid == FAIL) return -1;
+    if (Hdeldd(fid, DFTAG_VERSION, 1) == FAIL) return -1;
+    return Hclose(fid);
+}
+static int run_h_nover(const char *path)        /* a write session on a file that has no version element: Hclose adds it */
+{
+    uint8 b[64]; int32 fid; wl_nfail = 0;
+    CKID(fid, Hopen(path, DFACC_RDWR, 0));
+    wl_fill(b, 64, 73); CK(Hputelement(fid, 1450, 1, b, 64));
+    CK(Hclose(fid));
+done: return wl_nfail;
+}
+static int run_h_nocache(const char *path)      /* DD caching off: every DD change is written at once */
+{
+    uint8 b[200]; int32 fid, aid; wl_nfail = 0;
+    CKID(fid, Hopen(path, DFACC_RDWR, 0));
+    CK(Hcache(fid, FALSE));
+    ID(aid, Hstartaccess(fid, 1400, 1, DFACC_WRITE)); if (aid == FAIL) { wl_nfail++; WL_DBG(aid); } else { wl_fill(b, 200, 70); CK(Hwrite(aid, 60, b)); CK(Hwrite(aid, 40, b + 60)); CK(Hendaccess(aid)); }
+    wl_fill(b, 200, 71); CK(Hputelement(fid, 1400, 2, b, 80));
+    CK(Hdupdd(fid, 1401, 1, 1400, 2));
+    CK(Hdeldd(fid, 1000, 1));
+    ID(aid, Hstartaccess(fid, 1400, 3, DFACC_WRITE)); if (aid == FAIL) { wl_nfail++; WL_DBG(aid); } else { CK(Hwrite(aid, 30, b)); CK(Hendaccess(aid)); }   /* a fifth DD: new block */
+    wl_fill(b, 200, 72); CK(Hputelement(fid, 1000, 2, b, 20));           /* rewrite an existing element in place */
+    CK(HDflush(fid));
+    CK(Hclose(fid));
+done: return wl_nfail;
+}
+static int run_h_bits(const char *path)         /* bit I/O: write, switch to read, switch back, flush at the end; bit read of an existing element */
+{
+    int32 fid, bid; uint32 v; wl_nfail = 0;
+    CKID(fid, Hopen(path, DFACC_RDWR, 0));
+    ID(bid, Hstartbitwrite(fid, 1500, 1, 0)); if (bid == FAIL) { wl_nfail++; WL_DBG(bid); }
+    else {
+        CK(Hbitappendable(bid));
+        for (int i = 0; i < 40; i++) CK(Hbitwrite(bid, 1 + (i * 5) % 31, 0x5a5a5a5au ^ (uint32)(i * 2654435761u)));
+        CK(Hbitseek(bid, 3, 2)); CK(Hbitread(bid, 11, &v)); CK(Hbitwrite(bid, 7, v ^ 0x55)); CK(Hbitread(bid, 20, &v)); CK(Hbitwrite(bid, 13, v + 1));
+        CK(Hendbitaccess(bid, 0));
+    }
+    ID(bid, Hstartbitread(fid, 1000, 2)); if (bid == FAIL) { wl_nfail++; WL_DBG(bid); }
+    else { for (int i = 0; i < 6; i++) CK(Hbitread(bid, 9 + i, &v)); CK(Hendbitaccess(bid, 0)); }
+    ID(bid, Hstartbitwrite(fid, 1500, 2, 16)); if (bid == FAIL) { wl_nfail++; WL_DBG(bid); }
+    else { for (int i = 0; i < 5; i++) CK(Hbitwrite(bid, 17, 0x1ffffu - (uint32)i)); CK(Hendbitaccess(bid, 1)); }
+    CK(Hclose(fid));
+done: return wl_nfail;
+}
+static int run_h_ext(const char *path)          /* external elements: a new one, an existing element moved out; the external file is <path>.x */
+{
+    uint8 b[300]; char ext[800]; int32 fid, aid; wl_nfail = 0;
+    snprintf(ext, sizeof ext, "%s.x", path);
+    CKID(fid, Hopen(path, DFACC_RDWR, 0));
+    ID(aid, HXcreate(fid, 1600, 1, ext, 0, 0)); if (aid == FAIL) { wl_nfail++; WL_DBG(aid); } else { wl_fill(b, 300, 80); CK(Hwrite(aid, 100, b)); CK(Hwrite(aid, 50, b + 100)); CK(Hseek(aid, 20, DF_START)); CK(Hwrite(aid, 10, b)); CK(Hendaccess(aid)); }
+    ID(aid, HXcreate(fid, 1000, 1, ext, 200, 0)); if (aid == FAIL) { wl_nfail++; WL_DBG(aid); } else { CK(Hseek(aid, 90, DF_START)); wl_fill(b, 300, 81); CK(Hwrite(aid, 40, b)); CK(Hendaccess(aid)); }
+    ID(aid, Hstartread(fid, 1600, 1)); if (aid == FAIL) { wl_nfail++; WL_DBG(aid); } else { int32 n = (wr_set("Hread"), Hread(aid, 0, b)); if (n != 150) { wl_nfail++; WL_DBG(n); } CK(Hendaccess(aid)); }
+    CK(Hclose(fid));
+done: return wl_nfail;
+}
+static int run_df24_new(const char *path)       /* DF24 / DFGR: 24-bit images, plain and run-length encoded, a DFGR image with a lookup table */
+{
+    uint8 img[6 * 5 * 3], lut[768]; comp_info ci; wl_nfail = 0; memset(&ci, 0, sizeof ci);
+    for (int i = 0; i < 90; i++) img[i] = (uint8)((i / 9) * 20 + 1);
+    CK(DF24restart());
+    CK(DF24setil(0));
+    CK(DF24addimage(path, img, 6, 5));
+    CK(DF24setcompress(COMP_RLE, &ci));
+    CK(DF24setil(1));
+    CK(DF24addimage(path, img, 6, 5));
+    CK(DF24setcompress(COMP_NONE, &ci));
+    wl_fill(lut, 768, 82);
+    CK(DFGRsetlutdims(256, 1, 3, 0)); CK(DFGRaddlut(path, lut, 256, 1));   /* not DFGRsetlut: it passes a NULL file name to strcmp (crashes on every call) */
+    CK(DFGRsetimdims(5, 6, 3, 2)); CK(DFGRaddimage(path, img, 5, 6));
+    return wl_nfail;
+}
+static int run_df24_jpeg(const char *path)      /* DF24 with JPEG compression */
+{
+    uint8 img[16 * 8 * 3]; comp_info ci; wl_nfail = 0; memset(&ci, 0, sizeof ci);
+    for (int i = 0; i < 384; i++) img[i] = (uint8)((i / 48) * 30 + (i % 3) * 10);
+    ci.jpeg.quality = 60; ci.jpeg.force_baseline = 1;
+    CK(DF24restart());
+    CK(DF24setil(0));
+    CK(DF24setcompress(COMP_JPEG, &ci));
+    CK(DF24addimage(path, img, 16, 8));
+    CK(DF24setcompress(COMP_NONE, &ci));
+    return wl_nfail;
+}
+static int run_dfr8_new(const char *path)       /* DFR8: 8-bit rasters plain, run-length encoded, with a palette */
+{
+    uint8 img[12 * 8], pal[768]; wl_nfail = 0;
+    for (int i = 0; i < 96; i++) img[i] = (uint8)(i / 12 + 3);
+    wl_fill(pal, 768, 83);
+    CK(DFR8restart());
+    CK(DFR8addimage(path, img, 12, 8, COMP_NONE));
+    CK(DFR8setpalette(pal));
+    CK(DFR8addimage(path, img, 12, 8, COMP_RLE));
+    CK(DFR8addimage(path, img, 12, 8, COMP_NONE));                        /* not COMP_IMCOMP: the palette DFCIimcomp computes depends on uninitialised heap memory */
+    CK(DFR8setpalette(NULL));
+    return wl_nfail;
+}
+static int run_gr_comp(const char *path)        /* GR: deflate and RLE compressed images and a chunked image, each written in two calls */
+{
+    uint8 b[16 * 12]; int32 fid, gr, ri; comp_info ci; wl_nfail = 0; memset(&ci, 0, sizeof ci);
+    for (int i = 0; i < 192; i++) b[i] = (uint8)((i / 16) * 11 + ((i & 15) >> 2));
+    CKID(fid, Hopen(path, DFACC_RDWR, 0));
+    ID(gr, GRstart(fid)); if (gr == FAIL) { wl_nfail++; WL_DBG(gr); }
+    else {
+        int32 dims[2] = {16, 12}, s0[2] = {0, 0}, c0[2] = {16, 5}, s1[2] = {0, 5}, c1[2] = {16, 7};
+        ci.deflate.level = 5;
+        ID(ri, GRcreate(gr, "zimg", 1, DFNT_UINT8, MFGR_INTERLACE_PIXEL, dims)); if (ri == FAIL) { wl_nfail++; WL_DBG(ri); }
+        else { CK(GRsetcompress(ri, COMP_CODE_DEFLATE, &ci)); CK(GRwriteimage(ri, s0, NULL, c0, b)); CK(GRwriteimage(ri, s1, NULL, c1, b + 80)); CK(GRendaccess(ri)); }
+        ID(ri, GRcreate(gr, "rimg", 1, DFNT_UINT8, MFGR_INTERLACE_PIXEL, dims)); if (ri == FAIL) { wl_nfail++; WL_DBG(ri); }
+        else { CK(GRsetcompress(ri, COMP_CODE_RLE, &ci)); CK(GRwriteimage(ri, s0, NULL, c0, b)); CK(GRwriteimage(ri, s1, NULL, c1, b + 80)); CK(GRendaccess(ri)); }
+        { HDF_CHUNK_DEF c; memset(&c, 0, sizeof c); c.comp.chunk_lengths[0] = 8; c.comp.chunk_lengths[1] = 6; c.comp.comp_type = COMP_CODE_DEFLATE; c.comp.cinfo.deflate.level = 2;
+          ID(ri, GRcreate(gr, "cimg", 1, DFNT_UINT8, MFGR_INTERLACE_PIXEL, dims)); if (ri == FAIL) { wl_nfail++; WL_DBG(ri); }
+          else { CK(GRsetchunk(ri, c, HDF_CHUNK | HDF_COMP)); CK(GRwriteimage(ri, s0, NULL, c0, b)); CK(GRwriteimage(ri, s1, NULL, c1, b + 80)); CK(GRendaccess(ri)); } }
+        CK(GRend(gr));
+    }
+    CK(Hclose(fid));
+done: return wl_nfail;
+}
+static int run_dfan_rw(const char *path)        /* DFAN: read, add and replace object annotations, add file annotations */
+{
+    char buf[64]; int32 fid; wl_nfail = 0;
+    CK(DFANclear());                                                      /* as a new process: the annotation directories are built from the file */
+    CK(DFANputlabel(path, 1000, 1, "first label, replaced"));             /* replaces the label of prep; builds the label directory */
+    CK(DFANgetlabel(path, 1000, 1, buf, 64));
+    CK(DFANputlabel(path, 1000, 2, "second label"));
+    CK(DFANputdesc(path, 1000, 2, "second\ndescription", 18));             /* builds the description directory */
+    CK(DFANgetdesc(path, 1000, 1, buf, 64));
+    ID(fid, Hopen(path, DFACC_RDWR, 0)); if (fid == FAIL) { wl_nfail++; WL_DBG(fid); }
+    else { CK(DFANaddfid(fid, "file id two")); CK(DFANaddfds(fid, "file description", 16)); CK(Hclose(fid)); }
+    return wl_nfail;
+}
+static int run_dfsd_new(const char *path)       /* DFSD: scientific data sets with strings, scales and range; a second one written in slabs */
+{
+    float32 v[20], sc0[4] = {1, 2, 3, 4}, sc1[5] = {10, 20, 30, 40, 50}, mx = 5.0f, mn = 0.0f; int32 dims[2] = {4, 5}; wl_nfail = 0;
+    for (int i = 0; i < 20; i++) v[i] = (float32)i / 4;
+    CK(DFSDclear());
+    CK(DFSDsetNT(DFNT_FLOAT32));
+    CK(DFSDsetdims(2, dims));
+    CK(DFSDsetdatastrs("pressure", "Pa", "F7.2", "cartesian"));
+    CK(DFSDsetdimstrs(1, "x", "m", "F5.1")); CK(DFSDsetdimstrs(2, "y", "m", "F5.1"));
+    CK(DFSDsetdimscale(1, 4, sc0)); CK(DFSDsetdimscale(2, 5, sc1));
+    CK(DFSDsetrange(&mx, &mn));
+    CK(DFSDadddata(path, 2, dims, v));
+    CK(DFSDclear());
+    { int16 w[12], fv = -9; int32 d2[2] = {3, 4}, s0[2] = {1, 1}, c0[2] = {2, 4}, s1[2] = {3, 1}, c1[2] = {1, 4}; for (int i = 0; i < 12; i++) w[i] = (int16)(i * 5);
+      CK(DFSDsetNT(DFNT_INT16)); CK(DFSDsetdims(2, d2)); CK(DFSDsetfillvalue(&fv));
+      CK(DFSDstartslab(path)); CK(DFSDwriteslab(s0, NULL, c0, w)); CK(DFSDwriteslab(s1, NULL, c1, w + 8)); CK(DFSDendslab()); }
+    CK(DFSDclear());
+    return wl_nfail;
+}
+static int run_sd_rec(const char *path)         /* SD: append records to an existing unlimited data set (record count of the dimension Vdata and of the NDG's SDD are updated at SDend) */
+{
+    int32 sd, sds; wl_nfail = 0;
+    CKID(sd, SDstart(path, DFACC_RDWR));
+    { int32 idx = (wr_set("SDnametoindex"), SDnametoindex(sd, "rec")); sds = idx >= 0 ? (wr_set("SDselect"), SDselect(sd, idx)) : FAIL;
+      if (sds == FAIL) { wl_nfail++; WL_DBG(sds); }
+      else { int32 st[2] = {2, 0}, ct[2] = {2, 3}; int16 v[6] = {7, 8, 9, 10, 11, 12}; CK(SDwritedata(sds, st, NULL, ct, v)); CK(SDendaccess(sds)); } }
+    CK(SDend(sd));
+done: return wl_nfail;
+}
+/* pre-existing file with an old-style scientific data set (DFSD interface: NDG with dimension scales, strings, range) */
+static int prep_dfsd(const char *path)
+{
+    float32 v[20], sc0[4] = {1, 2, 3, 4}, sc1[5] = {10, 20, 30, 40, 50}; int32 dims[2] = {4, 5};
+    if (prep_h(path) == FAIL) return -1;
+    for (int i = 0; i < 20; i++) v[i] = (float32)i / 2;
+    DFSDclear();
+    if (DFSDsetNT(DFNT_FLOAT32) == FAIL || DFSDsetdims(2, dims) == FAIL || DFSDsetdatastrs("speed", "m/s", "F6.1", "polar") == FAIL) return -1;
+    if (DFSDsetdimstrs(2, "angle", "deg", "F5.0") == FAIL || DFSDsetdimscale(1, 4, sc0) == FAIL || DFSDsetdimscale(2, 5, sc1) == FAIL) return -1;
+    if (DFSDadddata(path, 2, dims, v) == FAIL) return -1;
+    return DFSDclear();
+}
+static int run_dfsd_sd(const char *path)        /* SD session on an old-style (DFSD) file: read, overwrite part of the data, rewrite the scale of the second dimension */
+{
+    int32 sd, sds; wl_nfail = 0;
+    CKID(sd, SDstart(path, DFACC_RDWR));
+    { int32 nds = 0, nat = 0; sds = FAIL; wr_set("SDfileinfo");    /* the data set proper is the variable of rank 2 (the scales are coordinate variables) */
+      if (SDfileinfo(sd, &nds, &nat) != FAIL)
+          for (int32 i = 0; i < nds && sds == FAIL; i++) { char nm[H4_MAX_NC_NAME + 1]; int32 rk = 0, dm[H4_MAX_VAR_DIMS], nt, na; int32 id = (wr_set("SDselect"), SDselect(sd, i)); if (id == FAIL) continue; if ((wr_set("SDgetinfo"), SDgetinfo(id, nm, &rk, dm, &nt, &na)) != FAIL && rk == 2) sds = id; else SDendaccess(id); } }
+    if (sds == FAIL) { wl_nfail++; WL_DBG(sds); }
+    else {
+        float32 v[20], w[5] = {-1, -2, -3, -4, -5}, sc[5] = {11, 21, 31, 41, 51}; int32 st[2] = {0, 0}, ct[2] = {4, 5}, s1[2] = {2, 0}, c1[2] = {1, 5};
+        CK(SDreaddata(sds, st, NULL, ct, v));
+        CK(SDwritedata(sds, s1, NULL, c1, w));
+        int32 d = (wr_set("SDgetdimid"), SDgetdimid(sds, 1)); if (d == FAIL) { wl_nfail++; WL_DBG(d); } else { CK(SDsetdimscale(d, 5, DFNT_FLOAT32, sc)); CK(SDgetdimscale(d, v)); }
+        CK(SDendaccess(sds));
+    }
+    CK(SDend(sd));
+done: return wl_nfail;
+}
+static int run_sd_nocache(const char *path)     /* SD metadata rewrite with DD caching off for every file (Hcache(CACHE_ALL_FILES)): the deletions of the old
+                                                   metadata objects (hdf_cdf_clobber) and every new descriptor reach the file at once */
+{
+    int32 sd, sds; wl_nfail = 0;
+    CK(Hcache(CACHE_ALL_FILES, FALSE));
+    ID(sd, SDstart(path, DFACC_RDWR)); if (sd == FAIL) { wl_nfail++; WL_DBG(sd); }
+    else {
+        int32 dims[1] = {4}; int32 st = 0, v[4] = {5, 6, 7, 8};
+        ID(sds, SDcreate(sd, "nc", DFNT_INT32, 1, dims)); if (sds == FAIL) { wl_nfail++; WL_DBG(sds); } else { CK(SDwritedata(sds, &st, NULL, dims, v)); CK(SDendaccess(sds)); }
+        CK(SDsetattr(sd, "history", DFNT_CHAR8, 7, "nocache"));
+        CK(SDend(sd));
+    }
+    CK(Hcache(CACHE_ALL_FILES, TRUE));            /* the library default, for whoever runs after this workload in the same process */
+    return wl_nfail;
+}
+static int run_vs_attr(const char *path)        /* Vdata / Vgroup attributes: new ones and new values for existing ones */
+{
+    int32 fid, vs, vg, ref; wl_nfail = 0;
+    CKID(fid, Hopen(path, DFACC_RDWR, 0));
+    CK(Vstart(fid));
+    ref = (wr_set("VSfind"), VSfind(fid, "table"));
+    vs = ref > 0 ? (wr_set("VSattach"), VSattach(fid, ref, "w")) : FAIL;
+    if (vs == FAIL) { wl_nfail++; WL_DBG(vs); }
+    else { int32 a = 91; float32 f[2] = {1.5f, -2.5f}; CK(VSsetattr(vs, _HDF_VDATA, "vsatt", DFNT_INT32, 1, &a)); CK(VSsetattr(vs, _HDF_VDATA, "second", DFNT_FLOAT32, 2, f)); CK(VSsetattr(vs, 1, "fieldatt", DFNT_CHAR8, 3, "abc")); CK(VSdetach(vs)); }
+    ref = (wr_set("Vfind"), Vfind(fid, "group"));
+    vg = ref > 0 ? (wr_set("Vattach"), Vattach(fid, ref, "w")) : FAIL;
+    if (vg == FAIL) { wl_nfail++; WL_DBG(vg); } else { int32 a = 92; int16 h[3] = {4, 5, 6}; CK(Vsetattr(vg, "vgatt", DFNT_INT32, 1, &a)); CK(Vsetattr(vg, "more", DFNT_INT16, 3, h)); CK(Vdetach(vg)); }
+    CK(Vend(fid));
+    CK(Hclose(fid));
+done: return wl_nfail;
+}
+static int run_an_rw(const char *path)          /* AN: read and rewrite an existing annotation (longer text), a second label for the same object */
+{
+    char buf[64]; int32 fid, an, ann; wl_nfail = 0;
+    CKID(fid, Hopen(path, DFACC_RDWR, 0));
+    ID(an, ANstart(fid)); if (an == FAIL) { wl_nfail++; WL_DBG(an); }
+    else {
+        int32 nfl, nfd, nol, nod; CK(ANfileinfo(an, &nfl, &nfd, &nol, &nod));
+        ID(ann, ANselect(an, 0, AN_DATA_LABEL)); if (ann == FAIL) { wl_nfail++; WL_DBG(ann); }
+        else { int32 l = (wr_set("ANannlen"), ANannlen(ann)); if (l == FAIL || l > 60) { wl_nfail++; WL_DBG(l); } else CK(ANreadann(ann, buf, l + 1)); CK(ANwriteann(ann, "label-one rewritten and longer", 30)); CK(ANendaccess(ann)); }
+        ID(ann, ANselect(an, 0, AN_FILE_DESC)); if (ann == FAIL) { wl_nfail++; WL_DBG(ann); } else { CK(ANwriteann(ann, "short", 5)); CK(ANendaccess(ann)); }
+        ID(ann, ANcreate(an, 1000, 1, AN_DATA_LABEL)); if (ann == FAIL) { wl_nfail++; WL_DBG(ann); } else { CK(ANwriteann(ann, "label-two", 9)); CK(ANendaccess(ann)); }
+        CK(ANend(an));
+    }
+    CK(Hclose(fid));
+done: return wl_nfail;
+}
+
 typedef struct {
     const char *name;
     int (*prep)(const char *);
@@ -300,6 +564,22 @@ static const workload_t WORKLOADS[] = {
     {"sd_modify", prep_rich, run_sd_modify, 0, 0, 0},
     {"create",    NULL,      run_create,    0, 0, 0},
     {"read_all",  prep_rich, run_read_all,  0, 0, 1},
+    /* C16 extension (not append-only for C17: they rewrite directories, metadata or use interfaces with their own bookkeeping) */
+    {"h_nocache", prep_h,    run_h_nocache, 0, 0, 0},
+    {"h_nover",   prep_nover, run_h_nover, 0, 0, 0},
+    {"h_bits",    prep_h,    run_h_bits,    0, 0, 0},
+    {"h_ext",     prep_h,    run_h_ext,     0, 0, 0},
+    {"df24_new",  prep_h,    run_df24_new,  0, 0, 0},
+    {"df24_jpeg", prep_h,    run_df24_jpeg, 0, 0, 0},
+    {"dfr8_new",  prep_h,    run_dfr8_new,  0, 0, 0},
+    {"gr_comp",   prep_rich, run_gr_comp,   0, 0, 0},
+    {"dfan_rw",   prep_dfan, run_dfan_rw,   0, 0, 0},
+    {"dfsd_new",  prep_h,    run_dfsd_new,  0, 0, 0},
+    {"sd_rec",    prep_rec,  run_sd_rec,    0, 0, 0},
+    {"dfsd_sd",   prep_dfsd, run_dfsd_sd,   0, 0, 0},
+    {"sd_nocache", prep_rich, run_sd_nocache, 0, 0, 0},
+    {"vs_attr",   prep_rich, run_vs_attr,   0, 0, 0},
+    {"an_rw",     prep_rich, run_an_rw,     0, 0, 0},
 };
 #define NWORKLOADS ((int)(sizeof WORKLOADS / sizeof WORKLOADS[0]))
 #endif
